@@ -171,7 +171,7 @@ class Ctx:
         if p.get("exhaustive") is not None:
             self.exhaustive = p["exhaustive"] if self.exhaustive is None else (self.exhaustive and p["exhaustive"])
         for k, v in (p.get("extra") or {}).items():
-            if isinstance(v, (int, float)) and isinstance(self.extra.get(k), (int, float)):
+            if isinstance(v, (int, float)) and not isinstance(v, bool) and isinstance(self.extra.get(k), (int, float)):
                 self.extra[k] += v
             else:
                 self.extra.setdefault(k, v)
